@@ -287,7 +287,9 @@ func (f *Filter) filterNodeServices(services **structs.NodeServices) bool {
 	for svcName, svc := range (*services).Services {
 		svc.FillAuthzContext(&authzContext)
 
-		if f.allowNode((*services).Node.Node, &authzContext) && f.allowService(svcName, &authzContext) {
+		// The map is keyed by service ID (state.Store.NodeServices); ACL rules are
+		// written against the service name.
+		if f.allowNode((*services).Node.Node, &authzContext) && f.allowService(svc.Service, &authzContext) {
 			continue
 		}
 		f.logger.Debug("dropping service from result due to ACLs", "service", svc.CompoundServiceID())
